@@ -206,7 +206,8 @@ fn replay_one(steps: &[Value], stats: &mut BTreeMap<String, u64>) -> Result<(), 
                 Some(Err(e)) => return Err(Mismatch { step: i, what: format!("result of {}: {}", a, e), exp: st["r"].clone(), got }),
                 Some(Ok(())) => {}
                 None => {
-                    if got != st["r"] {
+                    // "any": the specification leaves the result open (key of an exhausted iterator)
+                    if st["r"] != json!(["any"]) && got != st["r"] {
                         return Err(Mismatch { step: i, what: format!("result of {}", a), exp: st["r"].clone(), got });
                     }
                 }
